@@ -15,6 +15,7 @@ type DocOpts struct {
 	Keychain     bool // may create users whose authenticator has no inline hash
 	OddAuth      bool // may create authenticators with odd/missing options
 	OddScopes    bool // may name handler / provider types nobody registered (the builder skips such scopes)
+	Span         bool // the deployment registers the SPAN handler (mirror host unreachable: requests fall through to START)
 	V6           bool // may use IPv6 prefixes
 	InvalidRegex bool
 	NoSpaces     bool
@@ -35,6 +36,7 @@ func (r *Rand) token(prefix string) string { return prefix + r.Alnum(19) }
 // GenDoc draws a configuration document.
 func GenDoc(r *Rand, o DocOpts) model.Doc {
 	var d model.Doc
+	d.XSpan = o.Span && o.OddScopes
 	ns := o.Scopes
 	if ns == 0 {
 		ns = 1 + r.Intn(3)
@@ -45,6 +47,10 @@ func GenDoc(r *Rand, o DocOpts) model.Doc {
 		if o.OddScopes && r.Chance(12) {
 			if r.Chance(70) {
 				s.Handler.Type = 2 // SPAN: a valid handler type the reference server does not register
+				if r.Chance(75) {
+					// nothing listens there: the dial is refused at once
+					s.Handler.Options = map[string]string{"destination": "[::1]:1"}
+				}
 			} else {
 				s.Type = 2 // DNS: a valid provider type the reference server does not register
 			}
